@@ -26,6 +26,8 @@ const (
 	O_CREATE = ros.O_CREATE
 	O_TRUNC  = ros.O_TRUNC
 	O_APPEND = ros.O_APPEND
+	O_EXCL   = ros.O_EXCL
+	O_SYNC   = ros.O_SYNC
 
 	ModeNamedPipe = fs.ModeNamedPipe
 	ModeDir       = fs.ModeDir
@@ -79,6 +81,9 @@ func (f *File) Write(b []byte) (int, error) {
 	if f.kfd != nil {
 		return f.kfd.Write(b)
 	}
+	if f.sim != nil {
+		return f.sim.Write(b)
+	}
 	if f.real != nil {
 		return f.real.Write(b)
 	}
@@ -86,6 +91,36 @@ func (f *File) Write(b []byte) (int, error) {
 }
 
 func (f *File) WriteString(s string) (int, error) { return f.Write([]byte(s)) }
+
+func (f *File) Sync() error {
+	if f.sim != nil {
+		return f.sim.Sync()
+	}
+	if f.real != nil && f.std == 0 {
+		return f.real.Sync()
+	}
+	return nil
+}
+
+func (f *File) Stat() (FileInfo, error) {
+	if f.sim != nil {
+		return f.sim.Info(), nil
+	}
+	if f.real != nil {
+		return f.real.Stat()
+	}
+	return nil, &fs.PathError{Op: "stat", Path: f.name, Err: fs.ErrInvalid}
+}
+
+func (f *File) ReadDir(n int) ([]DirEntry, error) {
+	if f.sim != nil {
+		return disk().ReadDir(f.sim.Path)
+	}
+	if f.real != nil {
+		return f.real.ReadDir(n)
+	}
+	return nil, &fs.PathError{Op: "readdir", Path: f.name, Err: fs.ErrInvalid}
+}
 
 func (f *File) Read(b []byte) (int, error) {
 	if f.sim != nil {
@@ -159,15 +194,19 @@ func Open(name string) (*File, error) {
 }
 
 func OpenFile(name string, flag int, perm FileMode) (*File, error) {
-	if w := zsim.W; w != nil && w.K != nil {
+	if w := zsim.W; w != nil && w.K != nil && (w.Disk == nil || w.K.HasFifo(name)) {
 		k, err := w.K.OpenFile(name, flag)
 		if err != nil {
 			return nil, err
 		}
 		return &File{kfd: k, name: name}, nil
 	}
-	if d := disk(); d != nil && flag == O_RDONLY {
-		return Open(name)
+	if d := disk(); d != nil {
+		sf, err := d.OpenFile(name, flag, perm)
+		if err != nil {
+			return nil, err
+		}
+		return &File{sim: sf, name: name}, nil
 	}
 	f, err := ros.OpenFile(name, flag, perm)
 	if err != nil {
@@ -226,10 +265,60 @@ func ReadDir(name string) ([]DirEntry, error) {
 
 func Remove(name string) error {
 	if d := disk(); d != nil {
+		if !d.Exists(name) {
+			return &fs.PathError{Op: "remove", Path: name, Err: fs.ErrNotExist}
+		}
 		d.Remove(name)
 		return nil
 	}
 	return ros.Remove(name)
+}
+
+func Create(name string) (*File, error) { return OpenFile(name, O_RDWR|O_CREATE|O_TRUNC, 0o666) }
+
+func Mkdir(name string, perm FileMode) error {
+	if d := disk(); d != nil {
+		return d.Mkdir(name)
+	}
+	return ros.Mkdir(name, perm)
+}
+
+func MkdirAll(name string, perm FileMode) error {
+	if d := disk(); d != nil {
+		d.MkdirAll(name)
+		return nil
+	}
+	return ros.MkdirAll(name, perm)
+}
+
+func Rename(from, to string) error {
+	if d := disk(); d != nil {
+		return d.Rename(from, to)
+	}
+	return ros.Rename(from, to)
+}
+
+func Lstat(name string) (FileInfo, error) { return Stat(name) }
+
+func Getwd() (string, error) {
+	if disk() != nil {
+		return "/cwd", nil
+	}
+	return ros.Getwd()
+}
+
+func TempDir() string {
+	if disk() != nil {
+		return "/tmp"
+	}
+	return ros.TempDir()
+}
+
+func Hostname() (string, error) {
+	if zsim.W != nil {
+		return "sim", nil
+	}
+	return ros.Hostname()
 }
 
 // ---- process-level API (kernel profile)
